@@ -19,6 +19,7 @@ Clauses and where decided (check_history unless noted)
                                                                                        align_case
 """
 import datetime as dt
+import gc
 import json
 import os
 import shutil
@@ -726,7 +727,90 @@ def run_align(spec, rec):
                           {"exception": repr(exc), "trace": traceback.format_exc()[-1500:]})
 
 
+def reader_a(file_info):
+    with open(file_info.path) as fh:
+        return ("A", int(fh.read()))
+
+
+def reader_b(file_info):
+    with open(file_info.path) as fh:
+        return ("B", int(fh.read()))
+
+
+def _count_call(file_info):
+    _CALLS.append(os.fspath(file_info))
+    return 1
+
+
+_CALLS = []
+
+
+def two_filesets_case(rec, rng):
+    """Two filesets with different handlers in use at the same time (generators consumed alternately,
+    align with more primaries than worker threads), and an explicitly empty files= selection."""
+    from typhon.files import FileSet, FileHandler
+    root = scratch_dir("c10t")
+    try:
+        na, nb = rng.choice([5, 7]), rng.choice([5, 8])
+        fa = build_tree(root, na, prefix="p")
+        fb = build_tree(root, nb, prefix="s", start=dt.datetime(2017, 6, 1, 0, 20))
+        A = FileSet(path="%s/p/%s" % (root, TEMPLATE), name="A", handler=FileHandler(reader=reader_a),
+                    worker_type="thread")
+        B = FileSet(path="%s/s/%s" % (root, TEMPLATE), name="B", handler=FileHandler(reader=reader_b),
+                    worker_type="thread")
+        s0, s1 = dt.datetime(2017, 6, 1), dt.datetime(2017, 6, 3)
+        W = rng.choice([1, 2, 3])
+        case = {"kind": "two-filesets", "na": na, "nb": nb, "max_workers": W}
+        rec.ev()
+        rec.count("exec.two_filesets")
+        try:
+            ga, gb = A.icollect(s0, s1, max_workers=W), B.icollect(s0, s1, max_workers=W)
+            got_a, got_b = [], []
+            for _ in range(max(na, nb) + 1):
+                for g, out in ((ga, got_a), (gb, got_b)):
+                    try:
+                        out.append(next(g))
+                    except StopIteration:
+                        pass
+            want_a = [("A", f[3]) for f in fa]
+            want_b = [("B", f[3]) for f in fb]
+            if got_a != want_a or got_b != want_b:
+                rec.violation("results-wrong", case,
+                              {"why": "two icollect generators of different filesets consumed alternately",
+                               "got_a": got_a[:8], "want_a": want_a[:8], "got_b": got_b[:8]})
+            al = list(A.align(B, start=s0, end=s1, max_interval="30 min"))
+            bad = [x for x in al if not (isinstance(x, tuple) and len(x) == 2)]
+            tags = []
+            for item in al:
+                try:
+                    (fi_a, ca), (fi_b, cb) = item[0], item[1]
+                    tags.append((ca[0], cb[0]))
+                except Exception:
+                    tags.append(("?", repr(item)[:60]))
+            if bad or any(t != ("A", "B") for t in tags):
+                rec.violation("results-wrong", case,
+                              {"why": "align: content read through the other fileset's handler",
+                               "tags": tags[:10]})
+            # an explicitly empty selection selects nothing
+            del _CALLS[:]
+            r1 = A.map(_count_call, files=[])
+            r2 = list(A.imap(_count_call, files=[]))
+            r3 = list(A.icollect(files=[]))
+            if r1 != [] or r2 != [] or r3 != [] or _CALLS:
+                rec.violation("task-not-once", case,
+                              {"why": "files=[] selected files", "map": len(r1), "imap": len(r2),
+                               "icollect": len(r3), "function_calls": len(_CALLS)})
+        except Exception as exc:
+            rec.violation("unexpected-exception", case, {"exception": repr(exc),
+                                                         "trace": traceback.format_exc()[-1500:]})
+    finally:
+        gc.collect()
+        shutil.rmtree(root, ignore_errors=True)
+
+
 def run_shard(spec, rec):
+    if spec["shard"] < 4:
+        two_filesets_case(rec, rng_for(spec["seed"], "c10-two", spec["shard"]))
     if spec["kind"] == "enum":
         run_enum(spec, rec)
     elif spec["kind"] == "sampled":
@@ -741,6 +825,10 @@ def evidence_extra(counters, sets):
 
 
 def replay(case, rec):
+    if case.get("kind") == "two-filesets":
+        for k in range(4):
+            two_filesets_case(rec, rng_for(k, "c10-two-replay"))
+        return
     if case.get("kind") == "align":
         align_case(rec, None, case["cfg"], choices=case.get("choices"))
     else:
